@@ -55,6 +55,15 @@ def _ops():
     add("mr:78/B1/m0", "#787878", B1, 0, False, False)
     add("mr:hsl47/B1/m1", "hsl(0, 0%, 47%)", B1, 1, False, False)
     add("bulk:T1B1,5aB1", [(T1, B1), ("#5a5a5a", B1)], 1, False)
+    # a far-side pair (text lighter than a mid-tone background): the search direction depends on the *minimum*, so the
+    # variants below differ in exactly one setting yet take different paths through the same routine
+    FT, FB = "#808080", "#646464"
+    add("mr:far/m1", FT, FB, 1, False, False)
+    add("mr:far/m1/vr", FT, FB, 1, False, True)
+    add("mr:far/m1/large", FT, FB, 1, True, False)
+    add("mr:far/m0", FT, FB, 0, False, False)
+    # same text on two backgrounds that both need a fix, in opposite directions
+    add("mr:78/dark/m1", "#787878", "#282828", 1, False, False)
     add("ir:T1/B1", T1, B1, False)
     add("ir:T1/B1/large", T1, B1, True)
     add("ir:T1/B2", T1, B2, False)
@@ -78,10 +87,13 @@ def _ops():
 
 
 OPS = _ops()
-QUICK_OPS = ["mr:T1/B1/m1", "mr:T2/B1/m0/vr", "mr:T1/B2/m1", "mr:T1/B1/m0", "mr:T1/B1/m1/large", "mr:T1/B1/m1/vr", "mr:T3/B1/m1", "ir:T1/B1",
-             "P.mr:m1", "P.mr:m0/vr", "P.ir", "bulk:T1B1,T3B2", "bulk:T3B2,T1B1", "cli:sheet", "show:T1/B1", "mr:rgba/B1/m1", "mr:hsl/B1/m1",
-             "mr:chroma/mid/m1"]
-THOROUGH_OPS = QUICK_OPS + ["mr:T1/B1/m2", "mr:T3/B1/m0", "mr:aaa/B1/m1", "bulk:T2B1,T1B1/m0/vr", "bulk:T1B1large,bad", "new:bad", "P.mr:m2"]
+QUICK_OPS = ["mr:T1/B1/m1", "mr:T1/B1/m1/vr", "mr:T1/B1/m1/large", "mr:T1/B1/m0", "mr:T1/B1/m2",
+             "mr:far/m1", "mr:far/m1/vr", "mr:far/m1/large", "mr:far/m0",
+             "mr:78/B1/m1", "mr:78/dark/m1", "mr:T2/B1/m0/vr", "mr:T1/B2/m1", "mr:T3/B1/m1", "ir:T1/B1",
+             "P.mr:m1", "P.mr:m0/vr", "P.mr:m2", "P.ir", "bulk:T1B1,T3B2", "bulk:T3B2,T1B1", "cli:sheet", "show:T1/B1",
+             "mr:rgba/B1/m1", "mr:hsl/B1/m1", "mr:chroma/mid/m1"]
+THOROUGH_OPS = QUICK_OPS + ["mr:T3/B1/m0", "mr:aaa/B1/m1", "bulk:T2B1,T1B1/m0/vr", "bulk:T1B1large,bad", "new:bad", "mr:78/B1/m0",
+                            "cli:sheet/premium", "mr:yellow/B1/m2"]
 
 
 def _jsonable(x):
@@ -378,6 +390,7 @@ def second_level(job):
 
 
 def judge_case(case):
+    preimport()  # same fully imported starting state as the exploration (point numbering depends on it)
     names = case["ops"]
     need = sorted(set(names))
     refs = {}
@@ -433,7 +446,7 @@ def run(ctx):
     ops_r = ops[rot:] + ops[:rot]
     seqs = []
     for d in range(1, depth + 1):
-        base = ops_r if d < 3 else ops_r[:24]
+        base = ops_r if d < 3 else [o for o in ops_r if o not in ("mr:yellow/B1/m2", "mr:aaa/B1/m1", "cli:sheet/premium", "mr:rgba/B1/m1", "mr:hsl/B1/m1")][:24]
         seqs += [list(s) for s in itertools.product(base, repeat=d)]
     # longest first, interleaved so chunks are balanced
     seqs.sort(key=len, reverse=True)
